@@ -447,7 +447,7 @@ Definition fetch_uuids (g : guards) (f : h5) (k : ekind) : res (list (N * ekind)
 (* Does fetch_or_create_root, when it rebuilds the root, first scan every flat entry's child containers (H5Reader.fetch_children)
    and attach to the new root only the entries that are nobody's child?  The pinned source does not (it attaches every
    entry met in identifier order); fixes/C19-root-rebuild-keeps-hierarchy.patch does.  Read off the extracted table so that
-   the model follows whichever source is checked. *)
+   correspondence runs the variant of the source that is checked ([load] takes the variant as a parameter). *)
 Definition nested_scan : bool :=
   gkind_eqb (row_guard "Workspace.fetch_or_create_root" "ref:H5Reader.fetch_children" reader_rows) GHandled.
 Fixpoint nested_of (g : guards) (f : h5) (l : list (N * ekind)) : res (list (N * ekind)) :=
@@ -460,7 +460,7 @@ Fixpoint nested_of (g : guards) (f : h5) (l : list (N * ekind)) : res (list (N *
 Definition new_root : erec :=
   {| r_uid := Fresh [KRoot]; r_kind := RRoot; r_parent := None; r_attrs := []; r_type := None; r_pgs := []; r_dsets := Some [] |}.
 
-Definition load (fuel : nat) (g : guards) (f : h5) : res tree :=
+Definition load (fuel : nat) (g : guards) (nested : bool) (f : h5) : res tree :=
   match node_at f (top f) with
   | None => Err FileNotFoundError
   | Some tn =>
@@ -476,7 +476,7 @@ Definition load (fuel : nat) (g : guards) (f : h5) : res tree :=
           if absorbs (g_ws_root g) then
             do gs <- fetch_uuids g f KGroup;
             do os <- fetch_uuids g f KObject;
-            do nest <- (if nested_scan then nested_of g f (gs ++ os) else Ok []);
+            do nest <- (if nested then nested_of g f (gs ++ os) else Ok []);
             let tops := filter (fun c : N * ekind => negb (existsb (fun d : N * ekind => N.eqb (fst d) (fst c)) nest)) (gs ++ os) in
             match seq_load (fun reg c => load_ent fuel g f reg c (Some (r_uid new_root))) tops [r_uid new_root] with
             | Err e => Err e
@@ -876,7 +876,7 @@ Definition is_root_link (x : item) : bool :=
 Definition is_proj_attr (x : item) : bool := match x with IAttr [] _ => true | _ => false end.
 Definition thm_instance_okb (fuel : nat) (s : fspec) (t0 : tree) (x : item) : bool :=
   is_root_link x ||
-  match load fuel G (delete_item (layout s) x) with
+  match load fuel G nested_scan (delete_item (layout s) x) with
   | Err e => negb (optional s x) && negb (err_eqb e OutOfFuel)
   | Ok t => agree_outsideb s (negb (is_proj_attr x)) (described_by s x) t t0
   end.
@@ -895,7 +895,7 @@ Definition renorm_parent (s : fspec) (r : erec) : erec :=
 Definition check_obs (fuel : nat) (s : fspec) (t0 : tree) (x : item) (oerr : option err) (lost alt : list N) (fresh : nat)
            (proj : bool) : bool :=
   item_inb (layout s) x && thm_instance_okb fuel s t0 x &&
-  match load fuel G (delete_item (layout s) x), oerr with
+  match load fuel G nested_scan (delete_item (layout s) x), oerr with
   | Err e, Some e' => err_eqb e e'
   | Ok t, None =>
       let ml := lost_of s t0 t in
@@ -912,7 +912,7 @@ Definition check_obs (fuel : nat) (s : fspec) (t0 : tree) (x : item) (oerr : opt
 
 (* the intact file reads back as its content *)
 Definition intact_ok (fuel : nat) (s : fspec) : bool :=
-  match load fuel G (layout s) with Ok t => tree_eqb t (abs s) | Err _ => false end.
+  match load fuel G nested_scan (layout s) with Ok t => tree_eqb t (abs s) | Err _ => false end.
 
 
 (* the Root link describes the root group *)
